@@ -344,14 +344,42 @@ impl<'c, 'd> Parser<'c, 'd> {
         let mut operands = vec![];
 
         let number = self.decoder.bit32()?;
-        if let Some(g) = GInstTable::lookup_opcode(number as u16) {
+        // The opcode must be a 16-bit number of an instruction whose operands can
+        // be parsed without further context.
+        let grammar = if number <= u32::from(u16::MAX) {
+            GInstTable::lookup_opcode(number as u16).filter(|g| {
+                g.operands.iter().all(|loperand| {
+                    !matches!(
+                        loperand.kind,
+                        GOpKind::LiteralContextDependentNumber
+                            | GOpKind::PairLiteralIntegerIdRef
+                            | GOpKind::LiteralSpecConstantOpInteger
+                    )
+                })
+            })
+        } else {
+            None
+        };
+        if let Some(g) = grammar {
             // TODO: check whether this opcode is allowed here.
             operands.push(dr::Operand::LiteralSpecConstantOpInteger(g.opcode));
 
             // We need all parameters to this SpecConstantOp.
             for loperand in g.operands {
                 if loperand.kind != GOpKind::IdResultType && loperand.kind != GOpKind::IdResult {
-                    operands.append(&mut self.parse_operand(loperand.kind)?);
+                    match loperand.quantifier {
+                        GOpCount::One => operands.append(&mut self.parse_operand(loperand.kind)?),
+                        GOpCount::ZeroOrOne => {
+                            if !self.decoder.limit_reached() {
+                                operands.append(&mut self.parse_operand(loperand.kind)?)
+                            }
+                        }
+                        GOpCount::ZeroOrMore => {
+                            while !self.decoder.limit_reached() {
+                                operands.append(&mut self.parse_operand(loperand.kind)?)
+                            }
+                        }
+                    }
                 }
             }
             Ok(operands)
